@@ -52,7 +52,8 @@ def h5_case(draw):
             "bc": bc, "k": k, "labels": labels, "vdims": draw(gen.vdims_strategy(k, default_ok=False)) if labels == "custom" else None,
             "unit": draw(st.sampled_from(gen.FIELD_UNITS)), "dtype": draw(st.sampled_from(["float", "float", "complex", "int"])),
             "seed": draw(st.integers(0, 2**31)), "mask": draw(gen.mask_spec(nd)), "ext": draw(st.sampled_from([".h5", ".hdf5"])),
-            "same_path": draw(st.booleans()), "read_twice": draw(st.integers(0, 3)) == 0}
+            "same_path": draw(st.booleans()), "read_twice": draw(st.integers(0, 3)) == 0,
+            "nonfinite": draw(st.integers(0, 3)) == 0}
 
 
 def build(case):
@@ -78,6 +79,11 @@ def build(case):
     mesh = df.Mesh(region=region, n=n, bc=case["bc"], subregions=sr)
     dt = {"float": None, "complex": np.complex128, "int": np.int64}[case["dtype"]]
     arr = gen.make_array(case["seed"], (*n, case["k"]), "int", case["dtype"])
+    if case.get("nonfinite") and case["dtype"] in ("float", "complex"):
+        # NaN, infinities and negative zero are values like any other: bit-identical after the round trip
+        flat = arr.reshape(-1)
+        for j, v in enumerate((float("nan"), float("inf"), float("-inf"), -0.0)):
+            flat[(case["seed"] + 7 * j) % flat.size] = v
     kw = {}
     if case["labels"] == "custom" and case["k"] > 1:
         kw["vdims"] = list(case["vdims"])
@@ -122,7 +128,7 @@ def check_roundtrip(case):
             require(ds.shape == f.array.shape, "h5-array-shape", f"{ds.shape}")
             require(np.iscomplexobj(ds[...]) == np.iscomplexobj(f.array), "h5-array-dtype", f"{ds.dtype}")
             require(h["field/valid"].shape == tuple(mesh.n) and h["field/valid"].dtype == np.bool_, "h5-valid")
-            require(np.array_equal(ds[...], f.array), "h5-array-values")
+            require(np.array_equal(ds[...], f.array, equal_nan=True), "h5-array-values")
         back = df.Field.from_file(path)
     r0, r1 = mesh.region, back.mesh.region
     require(np.array_equal(r1.pmin, r0.pmin) and np.array_equal(r1.pmax, r0.pmax), "corners",
@@ -152,11 +158,13 @@ def check_roundtrip(case):
         raise Violation("labels" if v0 is not None else "labels-absent", f"{v0} comes back as {v1}")
     if back.unit != f.unit:
         raise Violation("unit", f"{f.unit!r} comes back as {back.unit!r}")
-    require(back.array.shape == f.array.shape and np.array_equal(back.array, f.array), "values")
+    require(back.array.shape == f.array.shape and np.array_equal(back.array, f.array, equal_nan=True)
+            and np.array_equal(np.signbit(back.array.real), np.signbit(f.array.real)), "values")
     if np.iscomplexobj(back.array) != np.iscomplexobj(f.array):
         raise Violation("complexness", f"{f.array.dtype} comes back as {back.array.dtype}")
     require(back.valid.dtype == np.bool_ and np.array_equal(back.valid, f.valid), "validity")
-    require(back == f and back.mesh == mesh, "library-equality")
+    # `==` follows numpy: a field holding NaN is not equal to itself; everything has been compared above
+    require((back == f or bool(np.isnan(f.array).any())) and back.mesh == mesh, "library-equality")
 
 
 @st.composite
